@@ -247,6 +247,12 @@ def check_file(h, opts, rep, steps_done=None, pfx="C10", full=True):
                     rep.v(pfx + ":energy_profile", "stored energy profile is not the projection of the stored phase space", record=rec, step=step, bunch=b,
                           rel_err=float(np.max(np.abs(ep - want_ep)) / emax))
             want_pop = float(np.sum(pr * ws))
+            pop_abs = float(np.sum(np.abs(pr) * ws))
+            if not np.isfinite(want_pop) or pop_abs > 1.5 * abs(want_pop):
+                # heavy cancellation between positive and negative lobes: a numerically destroyed (diverged) distribution;
+                # single-precision sums of such data are not comparable at any fixed tolerance
+                rep.ev("degenerate_records_skipped")
+                continue
             rep.ev("moment_records_compared")
             if not rep.r("population_vs_profile", abs(pop[rec, b] - want_pop) / (abs(want_pop) + 1e-300), 2e-5):
                 rep.v(pfx + ":population", "stored population is not the integral of the stored profile", record=rec, step=step, bunch=b, got=float(pop[rec, b]), want=want_pop)
@@ -327,7 +333,7 @@ def check_file(h, opts, rep, steps_done=None, pfx="C10", full=True):
                         # spectrum_b * |F_0|^2 == spectrum_0 * |F_b|^2 where both are well above rounding
                         lhs, rhs = spec[rec, b] * F2[0], spec[rec, 0] * F2[b]
                         scale = np.maximum(np.abs(lhs), np.abs(rhs))
-                        sel = (F2[0] > 1e-4 * np.max(F2[0])) & (F2[b] > 1e-4 * np.max(F2[b])) & (scale > 0)
+                        sel = (F2[0] > 1e-4 * np.max(F2[0])) & (F2[b] > 1e-4 * np.max(F2[b])) & (spec[rec, b] > 1e-30) & (spec[rec, 0] > 1e-30)   # (subnormal spectra carry no precision)
                         if np.any(sel):
                             e = float(np.max(np.abs(lhs - rhs)[sel] / scale[sel]))
                             rep.ev("csr_rows_compared")
